@@ -489,6 +489,17 @@ module Z =
   let modulo a b =
     let (_, r) = div_eucl a b in r
 
+  (** val odd : z -> bool **)
+
+  let odd = function
+  | Z0 -> false
+  | Zpos p -> (match p with
+               | XO _ -> false
+               | _ -> true)
+  | Zneg p -> (match p with
+               | XO _ -> false
+               | _ -> true)
+
   (** val div2 : z -> z **)
 
   let div2 = function
@@ -598,7 +609,9 @@ let rec pow_loop fuel w s t b e =
         | O -> None
         | S f ->
           pow_loop f w s (wrap w s (Z.mul t (pow_factor w s b e)))
-            (wrap w s (Z.mul b b)) (Z.shiftr e (Zpos XH)))
+            (if Z.eqb (Z.shiftr e (Zpos XH)) Z0
+             then b
+             else wrap w s (Z.mul b b)) (Z.shiftr e (Zpos XH)))
 
 (** val int_pow : z -> bool -> z -> z -> z option **)
 
@@ -653,3 +666,54 @@ let pow2_value n0 =
   | P2ULL v -> Some v
   | P2Lshift k -> Some (Z.shiftl (Zpos XH) k)
   | P2Fallback -> if Z.ltb n0 Z0 then None else Some (Z.pow (Zpos (XO XH)) n0)
+
+type pres =
+| PVal of z
+| PUB
+| PFuel
+
+(** val mulc : z -> bool -> z -> z -> z option **)
+
+let mulc w s x y =
+  if s
+  then if in_rangeb w s (Z.mul x y) then Some (Z.mul x y) else None
+  else Some (wrap w s (Z.mul x y))
+
+(** val pow_loop_ck : bool -> nat -> z -> bool -> z -> z -> z -> pres **)
+
+let rec pow_loop_ck fixsq fuel w s t b e =
+  if Z.eqb e Z0
+  then PVal t
+  else (match fuel with
+        | O -> PFuel
+        | S f ->
+          (match mulc w s t (if Z.odd e then b else Zpos XH) with
+           | Some t' ->
+             let e' = Z.shiftr e (Zpos XH) in
+             if (&&) fixsq (Z.eqb e' Z0)
+             then pow_loop_ck fixsq f w s t' b e'
+             else (match mulc w s b b with
+                   | Some b' -> pow_loop_ck fixsq f w s t' b' e'
+                   | None -> PUB)
+           | None -> PUB))
+
+(** val int_pow_ck : bool -> z -> bool -> z -> z -> pres **)
+
+let int_pow_ck fixsq w s b e =
+  if Z.eqb e (Zpos (XI XH))
+  then (match mulc w s b b with
+        | Some t -> (match mulc w s t b with
+                     | Some r -> PVal r
+                     | None -> PUB)
+        | None -> PUB)
+  else if Z.eqb e (Zpos (XO XH))
+       then (match mulc w s b b with
+             | Some r -> PVal r
+             | None -> PUB)
+       else if Z.eqb e (Zpos XH)
+            then PVal b
+            else if Z.eqb e Z0
+                 then PVal (Zpos XH)
+                 else if (&&) s (Z.ltb e Z0)
+                      then PVal Z0
+                      else pow_loop_ck fixsq (Z.to_nat w) w s (Zpos XH) b e
